@@ -59,11 +59,39 @@ func genLocks(repo string) (string, error) {
 			return false
 		})
 	}
+	// map-typed fields of the registry's own state (Registry, repository)
+	stateMaps := map[string]bool{}
+	for _, f := range files {
+		ast.Inspect(f, func(n ast.Node) bool {
+			ts, ok := n.(*ast.TypeSpec)
+			if !ok || (ts.Name.Name != "Registry" && ts.Name.Name != "repository") {
+				return true
+			}
+			if st, ok := ts.Type.(*ast.StructType); ok {
+				for _, fl := range st.Fields.List {
+					if _, isMap := fl.Type.(*ast.MapType); isMap {
+						for _, nm := range fl.Names {
+							stateMaps[nm.Name] = true
+						}
+					}
+				}
+			}
+			return false
+		})
+	}
 	type access struct {
 		fn, field, kind string
 		locks           []string
 	}
 	var accesses []access
+	// closureAccesses: inside a function literal (code that may run after the enclosing method has
+	// returned and released its lock), every use of a state map or of a map-typed parameter of the
+	// enclosing function, with the mutexes held there
+	var closureAccesses []access
+	var mapParams map[string]bool
+	returnsLit := map[string]bool{}      // "file:func" returns a function literal
+	returnedCalls := map[string][]string{} // exported method "file:func" -> names of functions whose result it returns
+	funcKey := map[string]string{}         // bare function name -> "file:func"
 	type method struct {
 		recv, name string
 		oneSection bool
@@ -98,8 +126,21 @@ func genLocks(repo string) (string, error) {
 			}
 			accesses = append(accesses, access{fn, sel.Sel.Name, kind, append([]string{}, held...)})
 		}
+		inClosure := strings.Contains(fn, ".func")
 		var visit func(n ast.Node) bool
 		visit = func(n ast.Node) bool {
+			if inClosure {
+				switch x := n.(type) {
+				case *ast.SelectorExpr:
+					if stateMaps[x.Sel.Name] {
+						closureAccesses = append(closureAccesses, access{fn, x.Sel.Name, "r", append([]string{}, held...)})
+					}
+				case *ast.Ident:
+					if mapParams[x.Name] {
+						closureAccesses = append(closureAccesses, access{fn, "param:" + x.Name, "r", append([]string{}, held...)})
+					}
+				}
+			}
 			switch x := n.(type) {
 			case *ast.DeferStmt:
 				if fl, ok := x.Call.Fun.(*ast.FuncLit); ok {
@@ -158,7 +199,45 @@ func genLocks(repo string) (string, error) {
 			}
 			held := locksAtEntry(fd.Body)
 			fn := strings.TrimSuffix(names[i], ".go") + ":" + fd.Name.Name
+			mapParams = map[string]bool{}
+			if fd.Type.Params != nil {
+				for _, fl := range fd.Type.Params.List {
+					if _, isMap := fl.Type.(*ast.MapType); isMap {
+						for _, nm := range fl.Names {
+							mapParams[nm.Name] = true
+						}
+					}
+				}
+			}
 			walk(fn, fd.Body, nil)
+			funcKey[fd.Name.Name] = fn
+			ast.Inspect(fd.Body, func(n ast.Node) bool {
+				if _, ok := n.(*ast.FuncLit); ok {
+					return false // returns of nested literals are not returns of fd
+				}
+				rs, ok := n.(*ast.ReturnStmt)
+				if !ok {
+					return true
+				}
+				for _, res := range rs.Results {
+					switch x := res.(type) {
+					case *ast.FuncLit:
+						returnsLit[fn] = true
+					case *ast.CallExpr:
+						switch f := x.Fun.(type) {
+						case *ast.Ident:
+							returnedCalls[fn] = append(returnedCalls[fn], f.Name)
+						case *ast.SelectorExpr:
+							returnedCalls[fn] = append(returnedCalls[fn], f.Sel.Name)
+						case *ast.IndexExpr: // generic instantiation f[T](…)
+							if id, ok := f.X.(*ast.Ident); ok {
+								returnedCalls[fn] = append(returnedCalls[fn], id.Name)
+							}
+						}
+					}
+				}
+				return true
+			})
 			if recv == "" || !ast.IsExported(fd.Name.Name) {
 				continue
 			}
@@ -211,7 +290,63 @@ func genLocks(repo string) (string, error) {
 		}
 		fmt.Fprintf(&b, "  (%s, %s, %s, %s)%s\n", leanStr(a.fn), leanStr(a.field), leanStr(a.kind), leanStrList(a.locks), sep)
 	}
-	b.WriteString("]\n\nend OciModel.Generated.Locks\n")
+	b.WriteString("]\n\n/-- every use, inside a function literal, of a map of the registry's state or of a map-typed parameter of the enclosing function: (function, what, \"r\", mutexes held there) -/\n")
+	b.WriteString("def closureStateAccesses : List (String × String × String × List String) := [\n")
+	for i, a := range closureAccesses {
+		sep := ","
+		if i == len(closureAccesses)-1 {
+			sep = ""
+		}
+		fmt.Fprintf(&b, "  (%s, %s, %s, %s)%s\n", leanStr(a.fn), leanStr(a.field), leanStr(a.kind), leanStrList(a.locks), sep)
+	}
+	b.WriteString("]\n\n")
+	// A function "hands out lazy state" when it returns a function literal that touches a state map or
+	// one of its own map parameters without the registry mutex held inside the literal; an exported
+	// method leaks it when it returns such a function's result (or such a literal) to its caller.
+	unlockedLit := map[string]bool{}
+	for _, a := range closureAccesses {
+		has := false
+		for _, l := range a.locks {
+			if l == "Registry.mu" {
+				has = true
+			}
+		}
+		if !has {
+			unlockedLit[strings.TrimSuffix(strings.TrimSuffix(a.fn, ".defer"), ".func")] = true
+		}
+	}
+	lazy := map[string]bool{}
+	for fn := range returnsLit {
+		if unlockedLit[fn] {
+			lazy[fn] = true
+		}
+	}
+	for changed := true; changed; { // a function returning a lazy function's result is lazy too
+		changed = false
+		for fn, callees := range returnedCalls {
+			if lazy[fn] {
+				continue
+			}
+			for _, c := range callees {
+				if k, ok := funcKey[c]; ok && lazy[k] {
+					lazy[fn] = true
+					changed = true
+				}
+			}
+		}
+	}
+	var leaks []string
+	for _, m := range methods {
+		for fn := range lazy {
+			if strings.HasSuffix(fn, ":"+m.name) {
+				leaks = append(leaks, m.recv+"."+m.name)
+			}
+		}
+	}
+	sort.Strings(leaks)
+	b.WriteString("/-- exported methods that return to their caller a function that reads the registry's maps lazily, outside the registry mutex -/\n")
+	fmt.Fprintf(&b, "def lazyStateLeaks : List String := %s\n", leanStrList(dedupStrings(leaks)))
+	b.WriteString("\nend OciModel.Generated.Locks\n")
 	return b.String(), nil
 }
 
